@@ -230,6 +230,21 @@ def ret_value(fn: ast.FunctionDef, ret: ast.Return):
     is bound exactly once in the function (rules that recognise a call form in a return must not depend on such a temporary)"""
     v = ret.value
     if isinstance(v, ast.Name):
+        # the temporary bound by the statement right before the return (any number of such returns in the function)
+        for blk_owner in ast.walk(fn):
+            for f in ("body", "orelse", "finalbody"):
+                blk = getattr(blk_owner, f, None)
+                if isinstance(blk, list) and ret in blk:
+                    i = blk.index(ret)
+                    if i > 0 and isinstance(blk[i - 1], ast.Assign) and len(blk[i - 1].targets) == 1 and isinstance(blk[i - 1].targets[0], ast.Name) \
+                            and blk[i - 1].targets[0].id == v.id:
+                        return blk[i - 1].value
+            for h in getattr(blk_owner, "handlers", []) or []:
+                if ret in h.body:
+                    i = h.body.index(ret)
+                    if i > 0 and isinstance(h.body[i - 1], ast.Assign) and len(h.body[i - 1].targets) == 1 and isinstance(h.body[i - 1].targets[0], ast.Name) \
+                            and h.body[i - 1].targets[0].id == v.id:
+                        return h.body[i - 1].value
         defs = [s for s in ast.walk(fn) if isinstance(s, (ast.Assign, ast.AnnAssign, ast.AugAssign))
                 and any(isinstance(t, ast.Name) and t.id == v.id for t in (s.targets if isinstance(s, ast.Assign) else [s.target]))]
         loops = [l for l in ast.walk(fn) if isinstance(l, (ast.For, ast.comprehension)) and any(isinstance(x, ast.Name) and x.id == v.id for x in ast.walk(l.target))]
